@@ -209,7 +209,20 @@ impl Context {
         let state = self.states.pop().expect("States underflow");
         let removed_from_rc = self.decrease_ref_count(state.memory_block_index);
         if removed_from_rc {
-            self.memory_blocks.remove(state.memory_block_index);
+            let removed_index = state.memory_block_index;
+            self.memory_blocks.remove(removed_index);
+            // the blocks after the removed one moved one position down,
+            // so the indices that point to them need to follow
+            for index in self.static_memory_blocks.values_mut() {
+                if *index > removed_index {
+                    *index -= 1;
+                }
+            }
+            for other_state in self.states.iter_mut() {
+                if other_state.memory_block_index > removed_index {
+                    other_state.memory_block_index -= 1;
+                }
+            }
         }
         state
     }
